@@ -6,8 +6,8 @@
 //!      greedy LZ, random valid tokenisation, raw chunks, mixtures) → serialized **by the Lean spec encoder**
 //!      (`serialize`, the function `decompress_correct` speaks about) → `decompress_stream` (hook) vs model vs source.
 //!   B. malformed  : single faults applied to valid containers; outcome class (ok+bytes / err / panic) impl vs model.
-//!      Panics on malformed input are C06 matters (ledger D34): reported with `malformed-panic:<site>` signatures
-//!      that `findings/C18.json` lists as known.
+//!      A panic on malformed input (C06, ledger D34, repaired in /repo 3510bc7 and a92e839) is reported with a `malformed-panic:<site>`
+//!      signature (none is known any more).
 //!   C. projects   : whole VBA projects (dir stream + module streams, compressed by the same tokenisers, wrapped in a
 //!      compound file by `cfbw::write_cfb`) read through `VbaProject::new`; names, raw bytes, decoded text,
 //!      references vs the generator's data and vs the model (`proj`). The `dir` walk alone also goes through the hook.
@@ -1065,7 +1065,8 @@ fn compress_stream(cx: &mut Ctx, data: &[u8], rng: &mut Rng) -> Option<Vec<u8>> 
 
 fn run_project(cx: &mut Ctx, rng: &mut Rng) {
     let p = gen_project(rng);
-    run_project_spec(cx, &p, "project", rng);
+    let label = if rng.chance(1, 8) { "project-fault" } else { "project" };
+    run_project_spec(cx, &p, label, rng);
 }
 
 /// regression projects: names and module text that *begin with the bytes of a byte-order mark* in the project's
@@ -1147,6 +1148,10 @@ fn run_project_spec(cx: &mut Ctx, p: &ProjSpec, label: &str, rng: &mut Rng) {
         let Some(c) = compress_stream(cx, &m.text.0, rng) else { return };
         let mut s = rng.bytes(m.offset);
         s.extend_from_slice(&c);
+        if label == "project-fault" && model_streams.is_empty() {
+            // fault: the first module's stream ends before (or right at) its recorded text offset
+            s.truncate(m.offset.saturating_sub(rng.below(3) as usize));
+        }
         model_streams.push(format!("{}={}", hex(&m.stream.0), hex(&s)));
         streams.push((m.stream.1.clone(), s));
     }
@@ -1190,6 +1195,14 @@ fn run_project_spec(cx: &mut Ctx, p: &ProjSpec, label: &str, rng: &mut Rng) {
     cx.rep.case(&format!("{label} cp={} mods={} refs={} size={}", p.cp, p.mods.len(), p.refs.len(), file.len()), true);
     if imp != model {
         cx.rep.fail("impl_vs_model", label, &input, &imp, &model, &expect_proj);
+    }
+    if label == "project-fault" {
+        // malformed project: outcome classes only (C06: Err, never a panic)
+        cx.rep.count(&format!("project-fault-outcome:{}", if imp.starts_with("err") || imp == "panic" { imp.as_str() } else { "ok" }));
+        if imp == "panic" {
+            cx.rep.fail("impl_vs_spec", "malformed-panic:project", &input, &imp, &model, "Err, not a panic (C06)");
+        }
+        return;
     }
     if imp != expect_proj {
         cx.rep.fail("impl_vs_spec", label, &input, &imp, &model, &expect_proj);
@@ -1547,6 +1560,12 @@ fn main() {
         for h in ["0105b00661ff0f1280", "0107b00e61ff0f17801780", "0108b00090253955f035eac38f", "0109b08061626364656667f66f01b00078",
                   "0103b0ed0100", "0101b0ffeb", "01010069", "0101300061", "0103b002", "0103", "02"] {
             run_malformed(&mut cx, &unhex(h), "corpus");
+        }
+        // fixed truncated / garbled dir streams (D34: panicked in vba.rs before /repo a92e839): stream shorter than a
+        // fixed skip, missing code page field, record length beyond the end of the stream
+        for h in ["010004000000010000004a0004000000030000000200040000", "0100040000000100000002000400000009040000140004000000090400000300",
+                  "01000400000001000000020004000000090400001400040000000904000003000200000e4040400ffffff7f41", "-", "01"] {
+            run_dirwalk(&mut cx, &unhex(h), "corpus", None);
         }
     }
 
